@@ -8,7 +8,7 @@
    [reorder] = the order in which the outer SELECT of a wrapper (no ORDER BY) returns its rows. *)
 From Coq Require Import List ZArith Bool Permutation Sorted.
 Import ListNotations.
-From SAV.sql Require Import Limit LimitListProofs LimitFormProofs LimitWhichProofs.
+From SAV.sql Require Import Limit LimitListProofs LimitFormProofs LimitWhichProofs LimitCacheProofs.
 Open Scope Z_scope.
 
 (* ---- the Z-indexed list programs of the model are firstn / skipn ---- *)
@@ -189,6 +189,21 @@ Theorem c18_rows_are_the_slice_in_order_partial : forall A (eqA eqk : A -> A -> 
 Proof. exact which_form_list. Qed.
 Print Assumptions c18_rows_are_the_slice_in_order_partial.
 
+(* ---- the compiled cache: the form is a template fixed by the cache key (presence of each clause,
+   plain int or not, FETCH options, ORDER BY, DISTINCT - not the values), instantiated with the
+   values of the statement being executed ---- *)
+Theorem c18_form_is_value_free_template : forall d s,
+  which_form d s = subst (lim_val s) (opt0 (val (s_off s))) (which_form d (markers s)).
+Proof. exact which_form_template. Qed.
+Print Assumptions c18_form_is_value_free_template.
+
+(* the SQL cached for ANY statement [s] of the same key, re-bound with the values of [s'], is the form
+   a fresh compilation of [s'] picks - so c18_rows_are_the_slice_guarded applies to every execution *)
+Theorem c18_cache_transparent : forall d s s', same_key s s' = true ->
+  which_form d s' = subst (lim_val s') (opt0 (val (s_off s'))) (which_form d (markers s)).
+Proof. exact cache_transparent. Qed.
+Print Assumptions c18_cache_transparent.
+
 (* ---- non-vacuity ---- *)
 (* beyond the end, zero, and the guard / hypotheses are satisfiable *)
 Example c18_ex_mssql_wrapper :
@@ -219,3 +234,10 @@ Proof. vm_compute. reflexivity. Qed.
 Example c18_ex_error :
   which_form (MSSQL true) (Sel (Limit (Clause true 3)) (Some (Clause true 4)) false false) = PError 1.
 Proof. reflexivity. Qed.
+Example c18_ex_cache_offset_zero_then_five :
+  let a := Sel (Limit (Clause true 4)) (Some (Clause true 0)) true false in
+  let b := Sel (Limit (Clause true 4)) (Some (Clause true 5)) true false in
+  same_key a b = true /\
+  subst 4 5 (which_form (Oracle false) (markers a)) = which_form (Oracle false) b /\
+  exec Z Z.eqb Z.eqb (fun l => l) (which_form (Oracle false) b) false [1;2;3;4;5;6;7;8;9;10;11] = [6;7;8;9].
+Proof. vm_compute. repeat split; reflexivity. Qed.
